@@ -43,6 +43,20 @@ def cond_list(plat):
     return out
 
 
+def status_codes(layer):
+    """[(native constant name, psutil status text)] of the module's PROC_STATUSES, by constant name."""
+    ps = getattr(layer.mod, "PROC_STATUSES", None)
+    if ps is None:
+        return []
+    out = []
+    for name, val in sorted(layer.consts.items()):
+        if val in ps and name.startswith("S") and not name.startswith("STATUS"):
+            out.append([name, str(ps[val])])
+    if len(out) != len(ps):
+        raise RuntimeError("C20 probe: cannot name every key of %s.PROC_STATUSES (%r vs %r)" % (layer.plat, out, ps))
+    return out
+
+
 def methods_of(layer):
     ms = [m for m in layer.methods() if (layer.plat, m) not in SKIP_METHODS]
     if "rlimit" in ms:
@@ -222,13 +236,17 @@ def run_nic(fe, fam, addr, mask, bcast):
 
 
 def probe_all(impl_dir, workdir):
-    out = {"slot_maps": [], "usage": [], "ladder": [], "sites": {}, "names": [], "nic": [], "methods": {}}
+    out = {"slot_maps": [], "usage": [], "ladder": [], "sites": {}, "names": [], "nic": [], "methods": {},
+           "status": [], "sladder": []}
     for plat in S.PLATS:
         layer = S.Layer(plat, impl_dir)
         for m in MAPS[plat]:
             d = getattr(layer.mod, m)
             out["slot_maps"].append([plat, m, [[k, int(v)] for k, v in d.items()]])
         ms = methods_of(layer)
+        codes = status_codes(layer)
+        if codes:
+            out["status"].append({"plat": plat, "codes": codes})
         out["methods"][plat] = ms
         out["sites"][plat] = {}
         for meth in ms:
@@ -248,6 +266,10 @@ def probe_all(impl_dir, workdir):
                     pid = 0 if pid0 else 7
                     outs.append(out_code(ladder_outcome(layer, meth, site, e, st, pid), pid))
                 out["ladder"].append({"plat": plat, "meth": meth, "site": site, "outs": outs})
+                # ESRCH for a PID listed with each native status code of PROC_STATUSES
+                for code, _text in codes:
+                    so = [out_code(ladder_outcome(layer, meth, site, "ESRCH", "code:" + code, pid), pid) for pid in (7, 0)]
+                    out["sladder"].append({"plat": plat, "meth": meth, "site": site, "code": code, "outs": so})
         fe = S.load_frontend(plat, impl_dir, workdir)
         pkg = fe.mod
         out["names"].append({"plat": plat, "all": sorted(set(pkg.__all__)),
@@ -294,6 +316,18 @@ def nic_in_coq(plat, fam, addr, mask, bcast):
                                               opt(ip_int(fam, bcast) if fam in (0, 1) else None))
 
 
+def _outs_coq(outs):
+    r = []
+    for o in outs:
+        if o[0] == "X":
+            r.append("GX %s %s %s" % (o[1], "true" if o[2] else "false", "true" if o[3] else "false"))
+        elif o[0] == "NotFired":
+            r.append("GNotFired")
+        else:
+            r.append("GOther")
+    return "; ".join(r)
+
+
 def emit_coq(data):
     L = ["(* GENERATED by props/_c20_probe.py from the psutil under test -- do not edit. *)",
          "From PV Require Import C20.Model.", "Local Open Scope string_scope.", ""]
@@ -323,6 +357,14 @@ def emit_coq(data):
                 outs.append("GOther")
         rows.append("  Build_lblock %s %s %s [%s]" % (COQ_PLAT[b["plat"]], qs(b["meth"]), qs(b["site"]), "; ".join(outs)))
     L.append(";\n".join(rows))
+    L.append("].\n")
+    L.append("Definition status_rows : list srow := [")
+    L.append(";\n".join("  Build_srow %s [%s]" % (COQ_PLAT[r["plat"]], "; ".join("(%s, %s)" % (qs(c), qs(t)) for c, t in r["codes"]))
+                        for r in data["status"]))
+    L.append("].\n")
+    L.append("Definition status_blocks : list sblock := [")
+    L.append(";\n".join("  Build_sblock %s %s %s %s [%s]" % (COQ_PLAT[b["plat"]], qs(b["meth"]), qs(b["site"]), qs(b["code"]),
+                                                              _outs_coq(b["outs"])) for b in data["sladder"]))
     L.append("].\n")
     L.append("Definition names_rows : list names := [")
     L.append(";\n".join("  Build_names %s [%s] [%s] [%s]" % (
